@@ -93,6 +93,13 @@ def bad_calls(M, rng, held):
     used = [v for v in range(n) if any(b._succ[k][0] == b.vars[vname(v)] for k in b._succ)]
     if used:
         out.append(('variable-in-use', 'undeclare', ([rng.choice(used)],)))
+        unused = [v for v in range(n) if v not in used]
+        if unused:
+            # a removable variable together with one that is still in use: nothing may change
+            mix = [rng.choice(unused), rng.choice(used)]
+            rng.shuffle(mix)
+            out.append(('variable-in-use', 'undeclare', (mix,)))
+            out.append(('variable-in-use', 'undeclare', (sorted(unused) + [rng.choice(used)],)))
     if b._last_len is not None:
         # the public find_or_add raises the internal signal when dynamic reordering
         # is enabled: that is C09's known finding, not a failing call of this property
@@ -319,6 +326,54 @@ def json_faults(ctx, n, receiver, fault):
             s.op(A, 'drop', h)
 
 
+def undeclare_mix(ctx, order, reordering):
+    """a rejected undeclare_vars whose arguments mix a removable variable that lies ABOVE
+    used levels with a variable that is still in use: nothing may change"""
+    rng = ctx.rng
+    n = 4
+    M = Mgr(ctx, f'undeclare mix order={order} reordering={reordering}', n, order)
+    s = M.s
+    used_vars = rng.sample(range(n), 2)
+    t = 0
+    # a function of exactly the two used variables
+    a, c = used_vars
+    for k in range(1 << n):
+        if T.getbit(k, a, n) != T.getbit(k, c, n) or (T.getbit(k, a, n) and rng.random() < 0):
+            t |= 1 << k
+    u = M.build(t)
+    M.op('incref', u)
+    M.op('gc', None)
+    if reordering:
+        M.op('configure', True)
+    before_tt = M.tt(u)
+    before_vars = dict(M.b.vars)
+    before_succ = dict(M.b._succ)
+    unused = [v for v in range(n) if v not in used_vars]
+    for args in ([unused[0], a], [c, unused[1]], unused + [a], [a, c]):
+        M.op('undeclare', list(args))
+        ctx.case(('undeclare-mix', tuple(order), tuple(args), reordering), True)
+        ctx.count('rejected:undeclare-mix')
+        if s.ok():
+            ctx.violation('C17:accepted', f'undeclare_vars{args} accepted although a variable is in use', M.case())
+            return
+        if dict(M.b.vars) != before_vars or dict(M.b._succ) != before_succ:
+            ctx.violation('C17:order-changed', f'rejected undeclare_vars{args} changed the variables or the nodes', M.case())
+            return
+        if M.tt(u) != before_tt:
+            ctx.violation('C17:reference-changed', f'rejected undeclare_vars{args} changed a held reference', M.case())
+            return
+        bad = oracle.check_table(M.b, external={1: 1, abs(u): 1})
+        if bad:
+            ctx.violation('C17:not-canonical', f'after rejected undeclare_vars{args}: {bad[:3]}', M.case())
+            return
+    # the removable ones can still be removed, and the function survives by name
+    r = M.op('undeclare', unused)
+    if r is None:
+        ctx.violation('C17:later-call', 'undeclare_vars of the unused variables fails after the rejected calls', M.case())
+    M.op('configure', False)
+    M.op('decref', u)
+
+
 def run(ctx):
     q = ctx.quick
     rng = ctx.rng
@@ -326,6 +381,8 @@ def run(ctx):
         for kind in ('undeclared', 'syntax'):
             for _ in range(2 if q else 12):
                 failed_retry(ctx, n, kind)
+    for order in (gen.orders(4) if not q else rng.sample(gen.orders(4), 6)):
+        undeclare_mix(ctx, order, reordering=rng.random() < 0.3)
     for fault in ('unknown-child', 'unknown-root', 'bad-level', 'parent-first'):
         for receiver in ('fresh', 'same', 'in-use'):
             for _ in range(1 if q else 8):
